@@ -25,7 +25,11 @@ EXPLANATION = (
     'cache file", "not claimed-and-unfinished", "not a stale output"; is_dir '
     'answers True from the real file system only for directories not '
     'virtually removed. R4.6: a reused subtree creates/reserves directories '
-    'only for outputs that did not raise. Decides consistency by '
+    'only for outputs that did not raise. R4.8: the reference-count walks '
+    'of BuildDirs agree - abstract interpretation of one iteration of the '
+    'reserve and of the release walk over the count domain shows that the '
+    'release is the exact inverse (same stopping decision, entry removed at '
+    'zero). Decides consistency by '
     'construction and error-class choice; the directory state machine '
     '(contents of the BuildDirs sets) is not decided.')
 
@@ -577,6 +581,12 @@ def r4_7(ctx, rc):
               key='removed sets only change element-wise')
 
 
+def r4_8(ctx, rc):
+    from .refcount import refcount_rule
+    refcount_rule(ctx, rc, 'BuildDirs.started_building_file',
+                  'BuildDirs.error_building_file')
+
+
 RULES = [
     ('R4.1', 'exists == is_file or is_dir (abstract evaluation)', r4_1),
     ('R4.2', 'one kernel decides the type of a path', r4_2),
@@ -585,4 +595,5 @@ RULES = [
     ('R4.5', 'atomic appearance of outputs', r4_5),
     ('R4.6', 'reused subtrees reserve only successful outputs', r4_6),
     ('R4.7', 'removed-directory knowledge is never dropped wholesale', r4_7),
+    ('R4.8', 'release walk is the inverse of the reserve walk', r4_8),
 ]
